@@ -8,7 +8,7 @@
     For transactions that do read their own writes the code — and therefore the
     faithful model — violates the property: [C13_F21_refuted] is the witness of
     known finding F21 (known_findings.json). *)
-From Verif Require Import Bytes BytesFacts Codec Dec DecFacts ListDS SetDS ZSetDS Index Engine Spec TxFacts ReplayFacts ApplyFacts KVRefine.
+From Verif Require Import Bytes BytesFacts Codec Dec DecFacts ListDS SetDS ZSetDS Index Engine Spec TxFacts ReplayFacts ApplyFacts KVRefine DSHistory.
 Open Scope N_scope.
 
 (** the records of a transaction are applied in the order of its calls, and the
@@ -60,6 +60,49 @@ Theorem C13_kv_commit_is_serial : forall w s t,
   kvrel (fst (do_commit None w t)) (fold_left spec_apply_kv (tx_pend t) s).
 Proof. exact commit_kvrel. Qed.
 Print Assumptions C13_kv_commit_is_serial.
+
+(** whole transactions: for every list of list/set/sorted-set (and blind
+    key/value) calls in one write transaction that satisfies [tx_guard] — no call
+    reads, pops or validates a structure that an earlier call of the same
+    transaction modified; blind writes may repeat — the calls return, one by
+    one, the results of the serial specification, a successful Commit leaves
+    the indexes equal to the specification's state after the whole transaction,
+    a failed Commit changes nothing, and Commit fails exactly when a record is
+    larger than a segment.  The guard's negation is known finding F21
+    ([C13_guard_is_needed]: three two-call transactions outside the guard whose
+    answers differ from the serial ones). *)
+Theorem C13_guarded_transaction_is_serial : forall now w s id os,
+  dsrel (w_ix w) s -> list_keys_ok (w_ix w) -> set_keys_ok (w_ix w) ->
+  w_closed w = false ->
+  Forall (fun o => is_kv_read o = false) os ->
+  tx_guard [] os = true ->
+  let w1 := fst (step now w (CBegin true id)) in
+  let '(w2, rs) := run_ops_res now w1 os in
+  let '(s2, srs) := spec_ops_res now s os in
+  let w3 := fst (step now w2 CCommit) in
+  rs = srs /\
+  (snd (step now w2 CCommit) = ROk ->
+     dsrel (w_ix w3) s2 /\ list_keys_ok (w_ix w3) /\ set_keys_ok (w_ix w3)) /\
+  (snd (step now w2 CCommit) <> ROk -> w3 = w2 /\ w_ix w3 = w_ix w) /\
+  (exists t2, w_tx w2 = TxActive t2 /\
+     (snd (step now w2 CCommit) = ROk <->
+      forall e, In e (tx_pend t2) -> entry_size e <= o_seg (w_opts w))).
+Proof. exact guarded_tx_is_serial. Qed.
+Print Assumptions C13_guarded_transaction_is_serial.
+
+Theorem C13_guard_is_needed :
+  dsrel (w_ix ex_w) ex_s /\ list_keys_ok (w_ix ex_w) /\ set_keys_ok (w_ix ex_w) /\
+  (tx_guard [] ex_read_after_write = false /\
+   snd (run_ops_res 0 ex_w1 ex_read_after_write) = [ROk; RInt 2] /\
+   snd (spec_ops_res 0 ex_s ex_read_after_write) = [ROk; RInt 3]) /\
+  (tx_guard [] ex_pop_after_push = false /\
+   snd (run_ops_res 0 ex_w1 ex_pop_after_push) = [ROk; RVal [x32]] /\
+   snd (spec_ops_res 0 ex_s ex_pop_after_push) = [ROk; RVal [x33]]) /\
+  (tx_guard [] ex_pop_pop = false /\
+   snd (run_ops_res 0 ex_w1 ex_pop_pop) = [RVal [x32]; RVal [x32]] /\
+   snd (spec_ops_res 0 ex_s ex_pop_pop) = [RVal [x32]; RVal [x31]]).
+Proof. exact unguarded_tx_not_serial. Qed.
+Print Assumptions C13_guard_is_needed.
 
 (** known finding F21: LPop twice in one transaction returns the same element
     twice (and Commit removes two elements); the serial specification returns
